@@ -30,6 +30,9 @@ func NewRecordBatchFromBytes(data []byte) (RecordBatch, error) {
 	baseOffset := int64(binary.BigEndian.Uint64(data[0:8]))
 	lastOffsetDelta := int32(binary.BigEndian.Uint32(data[23:27]))
 	messageCount := int32(binary.BigEndian.Uint32(data[57:61]))
+	if lastOffsetDelta < 0 || messageCount < 0 {
+		return RecordBatch{}, fmt.Errorf("record batch has negative offset delta (%d) or record count (%d)", lastOffsetDelta, messageCount)
+	}
 	return RecordBatch{
 		BaseOffset:      baseOffset,
 		LastOffsetDelta: lastOffsetDelta,
